@@ -7,9 +7,9 @@ META = dict(
     explanation='Whole runs of the real roll(w, s, [to_list -> order-sensitive linear digest]) under with_memory_store on N symbolic integer items, for every (w, s) in the grid, '
                 'are compared event by event (exact order and emission position) with the reference interpreter: a window opens at items 0, s, 2s, ..., receives the next w consecutive items, '
                 'full windows close on their w-th item and the remaining partial windows close at key completion in opening order. The digest is an injective linear form of the window contents, '
-                'so equality for all values means each window received exactly its consecutive items in order. Also under group_by with interleaved keys and nested in roll / split.',
-    bounds=dict(quick='(w, s) in 1..4 x 1..4, N <= 7 items (several wraps of the slot ring), any integer values; group_by(mod2) N <= 4; nested N <= 5',
-                thorough='(w, s) in 1..6 x 1..6, N <= 13; group_by N <= 6; nested N <= 7'),
+                'so equality for all values means each window received exactly its consecutive items in order. Also under group_by with interleaved keys and nested in roll / split. An inductive one-step form presets the real store, through its public API, to the state the invariant prescribes for an arbitrary item counter n = q*P + r (q >= 0 symbolic and unbounded, P one turn of the slot ring) and pushes one item or the key completion: emitted create / item / complete events and the post-state must be those prescribed for n+1 - with the whole runs as base case this covers streams of any length.',
+    bounds=dict(quick='(w, s) in 1..4 x 1..4, N <= 7 items (several wraps of the slot ring), any integer values; group_by(mod2) N <= 4; nested N <= 5; inductive step for (w, s) in 1..6 x 1..6, counter unbounded',
+                thorough='(w, s) in 1..6 x 1..6, N <= 13; group_by N <= 6; nested N <= 7; inductive step for (w, s) in 1..12 x 1..12'),
     outside='w or s above the grid; streams longer than the bound (roll state is a counter modulo the ring: see the wraps covered)',
     assumptions=['reference interpreter vp/refsem.py transcribes the property statement', 'synchronous single-threaded delivery'],
     stubs=[],
@@ -36,7 +36,109 @@ def runs(p):
     return refdiff(q)
 
 
-FAMILIES = {'runs': runs}
+def step(p):
+    """One event on roll_mux from the state the invariant prescribes for an arbitrary item counter n = q*P + r
+    (P = stride * ceil(window/stride) = one turn of the slot ring; q >= 0 symbolic and unbounded, r concretised by cascade):
+    open windows are exactly the starts k*s with k*s <= n-1 < k*s + w - 1 ... i.e. start < n < start + w, each in slot (start/s) mod density.
+    Together with the whole runs as base case this covers streams of any length."""
+    import rxsci as rs
+    from rx.subject import Subject
+    from vp.harness import mk, fail
+    W, S, event = p['w'], p['s'], p['event']
+    DENS = -(-W // S)
+    P = S * DENS
+
+    def body(a):
+        q, r, x = a
+        rr = 0
+        for c in range(P):
+            if r == c:
+                rr = c
+        n = q * P + rr
+        store = rs.state.StoreManager(store_factory=rs.state.MemoryStore)
+        events = []
+        src = Subject()
+        tapop = rs.ops.do_action(on_next=lambda i: events.append(('n', i)), on_create=lambda k: events.append(('c', k[0])), on_completed=lambda k: events.append(('d', None if k is None else k[0])))
+        src.pipe(rs.cast_as_mux_observable(), rs.state.with_store(store, [rs.data.roll(W, S, [tapop])])).subscribe(on_error=lambda e: events.append(('ERR', repr(e))))
+        src.on_next(rs.OnCreateMux((0,), store=store))
+        # install the pre-state for counter n through the public store API (state 0 = item counter, state 1 = window slots)
+        store.set_state(0, (0,), n)
+        for off in range(DENS):
+            store.set_state(1, (off, (0,)), -1)
+        exp_open = []
+        base = q * P
+        for c in range(-P, rr + 1, S):          # candidate starts base + c
+            start = base + c
+            if c < rr and c + W > rr and start >= 0:
+                slot = (c // S) % DENS
+                store.set_state(1, (slot, (0,)), start)
+                exp_open.append((slot, start))
+        del events[:]
+        if event == 'next':
+            src.on_next(rs.OnNextMux((0,), x, store=store))
+            exp = []
+            cur = list(exp_open)
+            if rr % S == 0:
+                slot = (rr // S) % DENS
+                exp.append(('c', slot))
+                cur.append((slot, n))
+            after = {}
+            for slot in range(DENS):
+                for (sl, st) in cur:
+                    if sl == slot:
+                        exp.append(('n', x))
+                        if n - st + 1 == W:
+                            exp.append(('d', slot))
+                        else:
+                            after[slot] = st
+            ok = events == exp and store.get_state(0, (0,)) == n + 1
+            for slot in range(DENS):
+                if store.get_state(1, (slot, (0,))) != after.get(slot, -1):
+                    ok = False
+            return ok or fail(w=W, s=S, n=n, observed=events, expected=exp, counter_after=store.get_state(0, (0,)))
+        src.on_next(rs.OnCompletedMux((0,), store=store))
+        exp = [('d', slot) for (slot, st) in exp_open]      # exp_open is built in increasing start order = opening order
+        ok = events == exp
+        for slot in range(DENS):
+            if store.get_state(1, (slot, (0,))) != -1:
+                ok = False
+        return ok or fail(w=W, s=S, n=n, event='complete', observed=events, expected=exp)
+    return mk('roll_step', [('q', 'int'), ('r', 'int'), ('x', 'int')], ['q >= 0', '0 <= r < %d' % P, '-2**40 <= x <= 2**40'], body)
+
+
+def step_count(p):
+    """tumbling fast path (window == stride): one event from an arbitrary in-window count 0 <= c < w"""
+    import rxsci as rs
+    from rx.subject import Subject
+    from vp.harness import mk, fail
+    W, event = p['w'], p['event']
+
+    def body(a):
+        c0, x = a
+        c = 0
+        for k in range(W):
+            if c0 == k:
+                c = k
+        store = rs.state.StoreManager(store_factory=rs.state.MemoryStore)
+        events = []
+        src = Subject()
+        tapop = rs.ops.do_action(on_next=lambda i: events.append(('n', i)), on_create=lambda k: events.append(('c', k[0])), on_completed=lambda k: events.append(('d', None if k is None else k[0])))
+        src.pipe(rs.cast_as_mux_observable(), rs.state.with_store(store, [rs.data.roll(W, W, [tapop])])).subscribe(on_error=lambda e: events.append(('ERR', repr(e))))
+        src.on_next(rs.OnCreateMux((0,), store=store))
+        store.set_state(0, (0,), c)
+        del events[:]
+        if event == 'next':
+            src.on_next(rs.OnNextMux((0,), x, store=store))
+            exp = ([('c', 0)] if c == 0 else []) + [('n', x)] + ([('d', 0)] if c + 1 == W else [])
+            want = 0 if c + 1 == W else c + 1
+            return (events == exp and store.get_state(0, (0,)) == want) or fail(w=W, count=c, observed=events, expected=exp, count_after=store.get_state(0, (0,)))
+        src.on_next(rs.OnCompletedMux((0,), store=store))
+        exp = [('d', 0)] if c > 0 else []
+        return events == exp or fail(w=W, count=c, event='complete', observed=events, expected=exp)
+    return mk('roll_step_count', [('c0', 'int'), ('x', 'int')], ['0 <= c0 < %d' % W, '-2**40 <= x <= 2**40'], body)
+
+
+FAMILIES = {'runs': runs, 'step': step, 'step_count': step_count}
 
 
 def obligations(tier, seed):
@@ -54,5 +156,15 @@ def obligations(tier, seed):
         for ctx in ('in_roll', 'in_split', 'roll_in', 'stream'):
             for n in (((3, 4) if ctx == 'in_split' else (4, 5)) if q else (4, 5, 6)):
                 obs.append(Ob(PROP, 'runs', dict(ctx=ctx, w=w, s=s, n=n), budget=120 if q else 600, bound=dict(w=w, s=s, items=n, ctx=ctx)))
+    gi = 6 if q else 12
+    for w in range(1, gi + 1):
+        for s in range(1, gi + 1):
+            for ev in ('next', 'complete'):
+                if w == s:
+                    obs.append(Ob(PROP, 'step_count', dict(w=w, event=ev), budget=120 if q else 300, group='inductive step (tumbling)', bound=dict(w=w, s=s, count='any value of the invariant 0 <= count < w')))
+                else:
+                    obs.append(Ob(PROP, 'step', dict(w=w, s=s, event=ev), budget=120 if q else 300, group='inductive step (unbounded counter)',
+                                  bound=dict(w=w, s=s, counter='n = q*P + r, q >= 0 unbounded')))
     obs.append(Ob(PROP, 'runs', dict(ctx='root', w=3, s=2, n=5, _twin='reach'), budget=60, expect='refute'))
+    obs.append(Ob(PROP, 'step', dict(w=5, s=2, event='next', _twin='reach'), budget=60, expect='refute'))
     return obs
